@@ -133,10 +133,10 @@ let run_gs (toks : string list) : string =
     | ["norm"; i] -> (match bw_normalize (get (int_of_string i)) with
                       | Some p -> push p | None -> err k; push (get (int_of_string i)))
     | ["bn"; is] ->
-        let is = ints_of is in
-        if List.exists (fun i -> let ((_, _), z) = get i in ZZ.equal z ZZ.zero) is then err k
-        else List.iter (fun i -> match bw_normalize (get i) with
-                                 | Some p -> !regs.(i) <- p | None -> ()) is
+        (* BatchNormalize: the Coq model function over the whole store *)
+        (match bw_batch_normalize (Array.to_list !regs) (List.map nat_of_int (ints_of is)) with
+         | None -> err k
+         | Some st -> regs := Array.of_list st)
     | [("msm" | "ms"); _; _; is; ss] | ["msx"; _; _; is; ss] ->
         push (c_msm (List.map get (ints_of is)) (frs_of ss))
     | ["msmp"; kv] ->
